@@ -36,9 +36,19 @@ func runC10(a args) error {
 		var steps []string
 		var stepsDesc [][]int
 		reopens := 0
+		rejected := 0
 		deletedSeveral := false
 		prevLen := 0
 		for k := 1; k <= n; k++ {
+			if r.Chance(0.08) {
+				// a publish the database refuses (the key would exceed bbolt's maximum key size): it must leave no trace,
+				// in particular no hole in the sequence numbers the retention arithmetic relies on
+				bad := &mercure.Update{Topics: []string{"t"}, Event: mercure.Event{ID: strings.Repeat("k", 40000), Data: "x"}}
+				if err := t.Dispatch(bad); err == nil {
+					return fmt.Errorf("an update with a 40000-byte id was accepted")
+				}
+				rejected++
+			}
 			u := &mercure.Update{Topics: []string{"t"}, Event: mercure.Event{ID: strconv.Itoa(k), Data: strings.Repeat("x", pay)}}
 			if err := t.Dispatch(u); err != nil {
 				return err
@@ -77,9 +87,9 @@ func runC10(a args) error {
 			fk = 1
 		}
 		term := fmt.Sprintf("{| c10_size := %d; c10_freq := %d; c10_steps := %s |}", size, fk, ce.List(steps))
-		out.Add(term, map[string]any{"size": size, "frequency": freq, "publishes": n, "payload": pay, "reopens": reopens, "retained_after_each": stepsDesc},
+		out.Add(term, map[string]any{"size": size, "frequency": freq, "publishes": n, "payload": pay, "reopens": reopens, "rejected_publishes": rejected, "retained_after_each": stepsDesc},
 			deletedSeveral || (size > 0 && uint64(n) > size), fmt.Sprintf("freq:%v", freq), fmt.Sprintf("payload:%d", pay),
-			fmt.Sprintf("several-keys-in-one-cleanup:%v", deletedSeveral), fmt.Sprintf("reopens:%d", min(reopens, 3)))
+			fmt.Sprintf("several-keys-in-one-cleanup:%v", deletedSeveral), fmt.Sprintf("reopens:%d", min(reopens, 3)), fmt.Sprintf("rejected:%d", min(rejected, 3)))
 	}
 	return out.Flush()
 }
